@@ -31,13 +31,10 @@ SBndSet(W) == {z \in PosBnd(W) \cup {Neg(z) : z \in PosBnd(W)} : InS(z, W)}
 UBndSet(W) == {z \in PosBnd(W) \cup {UMax(W), Sub(UMax(W), One)} : InU(z, W)}
 Half(W)    == W \div 2
 SCoreSet(W) ==
-  {z \in {Zero, One, Neg(One), FromInt(2), FromInt(-2), FromInt(3), FromInt(-3), FromInt(7), FromInt(-7),
-          FromInt(10), FromInt(-10), FromInt(100),
+  {z \in {Zero, One, Neg(One), FromInt(2), FromInt(-2), FromInt(3), FromInt(-3), FromInt(10), FromInt(-7),
           SMax(W), Sub(SMax(W), One), SMin(W), Add(SMin(W), One),
-          Pow2Z(Half(W)), Neg(Pow2Z(Half(W))), Add(Pow2Z(Half(W)), One), Sub(Pow2Z(Half(W)), One),
-          Neg(Add(Pow2Z(Half(W)), One)), Neg(Sub(Pow2Z(Half(W)), One)),
-          Pow2Z(W - 2), Neg(Pow2Z(W - 2)), Sub(Pow2Z(W - 2), One),
-          Pow2Z(Half(W) - 1), Sub(Pow2Z(Half(W) - 1), One), Neg(Pow2Z(Half(W) - 1))} : InS(z, W)}
+          Pow2Z(Half(W)), Neg(Pow2Z(Half(W))), Add(Pow2Z(Half(W)), One), Neg(Sub(Pow2Z(Half(W)), One)),
+          Pow2Z(W - 2), Neg(Pow2Z(W - 2)), Sub(Pow2Z(Half(W) - 1), One)} : InS(z, W)}
 UCoreSet(W) ==
   {z \in {Zero, One, FromInt(2), FromInt(3), FromInt(10), UMax(W), Sub(UMax(W), One),
           Pow2Z(W - 1), Sub(Pow2Z(W - 1), One), Add(Pow2Z(W - 1), One),
@@ -117,7 +114,10 @@ ShiftKs  == {FromInt(k) : k \in {0, 1, 2, 7, 15, 16, 17, 31, 32, 33, 62, 63, 64,
 PowBases == {Zero, One, Neg(One), FromInt(2), FromInt(-2), FromInt(3), FromInt(-3), FromInt(10),
              Add(Pow2Z(32), One), Neg(Pow2Z(63)), Sub(Pow2Z(64), One)}
 PowExps  == {FromInt(k) : k \in {0, 1, 2, 3, 4, 5, 7, 8, 16, 31, 32, 33, 64}}
-PowMods  == {z \in BCoreSet \cup {FromInt(7), FromInt(-7), FromInt(1000)} : ~IsZero(z)}
+PMBases  == {Zero, One, Neg(One), FromInt(2), FromInt(-3), FromInt(10), Add(Pow2Z(32), One), Neg(Pow2Z(63))}
+PMExps   == {FromInt(k) : k \in {0, 1, 2, 3, 5, 16, 33}}
+PowMods  == {One, Neg(One), FromInt(2), FromInt(7), FromInt(-7), FromInt(1000), Add(Pow2Z(32), One),
+             Sub(Pow2Z(63), One), Neg(Pow2Z(64)), Add(Pow2Z(64), One)}
 
 Txt(z) == DecText(z)
 RadixLits == { <<50, 114, 49, 48, 49>>,                  \* 2r101
@@ -133,8 +133,8 @@ ArrBIntLits == {Txt(z) : z \in {x \in BBndSet : ~x.neg}} \cup RadixLits
                \cup {<<49, 54, 114>> \o [i \in 1..40 |-> 102]}
 
 Blank(n) == [i \in 1..n |-> 32]
-FormatCases(t) == {<<x, Blank(IF t = "BInt" THEN 90 ELSE 24), i>> :
-                      x \in (IF t = "BInt" THEN BBndSet ELSE SBndSet(SIntW)), i \in {Zero, One, FromInt(3)}}
+FormatXs(t) == LET sq == TSeq[t] IN TCore(t) \cup {sq[i] : i \in {j \in 1..Len(sq) : (j + Offset) % Stride3 = 0}}
+FormatCases(t) == {<<x, Blank(IF t = "BInt" THEN 90 ELSE 24), i>> : x \in FormatXs(t), i \in {Zero, FromInt(3)}}
 ScanTexts == { <<49, 50, 51>>, <<45, 52, 53, 120>>, <<48>>, <<55, 32, 56>>, <<45, 49>>,
                <<57, 50, 50, 51, 51, 55, 50, 48, 51, 54, 56, 53, 52, 55, 55, 53, 56, 48, 55>>,
                <<45, 57, 50, 50, 51, 51, 55, 50, 48, 51, 54, 56, 53, 52, 55, 55, 53, 56, 48, 56>>,
@@ -150,7 +150,7 @@ RawCases(o) ==
     [] o = "SIntTimesModInv" -> {<<FromInt(5), FromInt(7), FromInt(11), "0.09090909090909091">>}
     [] o \in {"BIntShiftUp", "BIntShiftDn", "BIntShiftRem", "BIntBit"} -> TSet("BInt") \X ShiftKs
     [] o \in {"BIntSIPower", "BIntBIPower"} -> PowBases \X PowExps
-    [] o = "BIntPowerMod" -> PowBases \X PowExps \X PowMods
+    [] o = "BIntPowerMod" -> PMBases \X PMExps \X PowMods
     [] o = "ArrToSInt" -> {<<s>> : s \in ArrSIntLits}
     [] o = "ArrToBInt" -> {<<s>> : s \in ArrBIntLits}
     [] o \in {"ArrToSFlo", "ArrToDFlo"} ->
@@ -178,21 +178,13 @@ IntLike(o) == \A i \in 1..Len(Sig(o).args) : ~IsFloType(Sig(o).args[i])
 Cases(o) == IF IntLike(o) THEN {a \in RawCases(o) : InDomain(o, a)} ELSE RawCases(o)
 
 ---------------------------------------------------------------------------
-(* JSON encoding: integers as <<sign, d1, d2, ...>> (radix 2^11, little     *)
-(* endian), booleans and character codes natively, text as code sequences   *)
-ZJ(z) == <<IF z.neg THEN 1 ELSE 0>> \o z.mag
-Enc(v, t) == IF IsIntType(t) THEN ZJ(v) ELSE v
-EncSeq(vs, ts) == [i \in 1..Len(vs) |-> Enc(vs[i], ts[i])]
-ResTypes(o) == IF o \in {"FormatSInt", "FormatBInt"} THEN <<"SInt", "Str">> ELSE Sig(o).res
-EncRes(o, a) == IF Specified(o, a) THEN EncSeq(Def(o, a), ResTypes(o)) ELSE "Unspecified"
-
 Ops == IF OpFilter = {} THEN OpNames ELSE OpNames \cap OpFilter
 
 Init == op \in Ops /\ args = <<>> /\ ph = 0
 Next == \/ /\ ph = 0 /\ args' \in Cases(op) /\ ph' = 1 /\ op' = op
         \/ /\ ph = 1 /\ ph' = 2 /\ UNCHANGED <<op, args>>
-           /\ PrintT("CASE " \o ToJson([op |-> op, args |-> EncSeq(args, Sig(op).args),
-                                        res |-> EncRes(op, args)]))
+           /\ LET sg == Sig(op) IN
+                PrintT("CASE " \o ToJson([op |-> op, args |-> EncSeq(args, sg.args), res |-> EncRes(op, args)]))
 Spec == Init /\ [][Next]_<<op, args, ph>>
 
 (* the definition always yields values of the declared result types          *)
